@@ -150,7 +150,8 @@ CLAIMS = {
              'literal_around, tagfree_renders_itself, literal_only_when_rendered. Correspondence: token streams and compiled '
              'trees incl. every literal node, model vs real parser, on literal-rich templates in 3 syntaxes, tag-free texts and '
              'concatenations; oracle: independent printer for the rendering (sentinel values, documented line-end rule), '
-             'tag-free sources render to themselves, render(a+b) == render(a)+render(b)',
+             'tag-free sources render to themselves, render(a+b) == render(a)+render(b). '
+             'The main loop of String.parse is TRANSLATED from the source on every run (harness/trans_parseloop.py -> GenParseLoop.lean, scanner / _parseTag / parse_block / commands as parameters): gen_parse_body_is_model, gen_parse_epilogue_is_model, gen_parse_loop_is_model, gen_parse_is_model, gen_parse_literals_verbatim (for every scanner whose matches lie at or after start the appended literals and tags tile text[start:], no empty literal, a simple tag consumes exactly its own text), gen_parse_is_tokens (with the model scanner the loop appends exactly the literals and tags of Scan.tokens)',
         note='Trusted: Lean kernel; hand-compiled scanners validated against CPython re by token correspondence; the compiled '
              'tree (Parse.Node) and the interpreter\'s blocks (Render.Blk) are two models tied to the code separately. Partial: '
              'the composition statement render(a+b) is decided by the oracle, not yet by a theorem over both models',
